@@ -5,6 +5,7 @@ import random
 from common import (F, cnat, copt, cq, cql, cres, clist, ctuple, fs, fsl, fp, fpl, random_vector,
                     shape_vectors, distinct)
 
+PREWARM = False      # see impl_runner: no float pre-run for this stream
 COQ_MODULE = "NurbsV.Check.C03"
 FAMILIES = 2
 EXTRA_IMPORTS = "From NurbsV Require Import Model.KV Model.KVFacade."
